@@ -174,8 +174,20 @@ class TlcRun:
         return (int(m.group(1)), int(m.group(2))) if m else (0, 0)
 
     def printed(self, tag):
-        """Values printed by PrintT(<<"tag", ...>>), as raw text lines."""
-        return [l for l in self.out.splitlines() if l.startswith('<<"%s"' % tag)]
+        """Values printed by PrintT(<<"tag", ...>>) as text (TLC wraps long values over several lines)."""
+        out = []
+        lines = self.out.splitlines()
+        i = 0
+        pat = re.compile(r'^<<\s*"%s"' % re.escape(tag))
+        while i < len(lines):
+            if pat.match(lines[i]):
+                buf = lines[i]
+                while not _balanced(buf) and i + 1 < len(lines):
+                    i += 1
+                    buf += " " + lines[i].strip()
+                out.append(buf)
+            i += 1
+        return out
 
     def cex_states(self):
         if not self.cex:
@@ -188,6 +200,31 @@ class TlcRun:
         if not acts:
             return []
         return [acts[0][0][1]] + [a[2][1] for a in acts]
+
+
+def _balanced(text):
+    depth, i, instr = 0, 0, False
+    while i < len(text):
+        c = text[i]
+        if instr:
+            if c == "\\":
+                i += 1
+            elif c == '"':
+                instr = False
+        elif c == '"':
+            instr = True
+        elif text.startswith("<<", i):
+            depth += 1
+            i += 1
+        elif text.startswith(">>", i):
+            depth -= 1
+            i += 1
+        elif c in "{[(":
+            depth += 1
+        elif c in "}])":
+            depth -= 1
+        i += 1
+    return depth <= 0 and not instr
 
 
 def run_tlc_many(runs, procs=None):
